@@ -776,6 +776,23 @@ func table(in json.RawMessage, res *vh.Result) error {
 	var wg sync.WaitGroup
 	var mu sync.Mutex
 	kinds := map[string]int{}
+	// one finding per signature: the one with the smallest row index (deterministic for a given seed)
+	type finding struct {
+		ri     int
+		soft   bool
+		sig    string
+		what   string
+		replay any
+	}
+	found := map[string]finding{}
+	keep := func(ri int, soft bool, sig, what string, replay any) {
+		mu.Lock()
+		defer mu.Unlock()
+		k := fmt.Sprint(soft, sig)
+		if f, ok := found[k]; !ok || ri < f.ri {
+			found[k] = finding{ri, soft, sig, what, replay}
+		}
+	}
 	for w := 0; w < workers; w++ {
 		wg.Add(1)
 		go func(w int) {
@@ -805,11 +822,7 @@ func table(in json.RawMessage, res *vh.Result) error {
 						}
 						sig += ":" + v.cat
 						replay := map[string]any{"row": r, "isServer": isServer, "mode": mode, "seed": seed, "row_index": ri, "wire_hex": fmt.Sprintf("%x", b.wire[:min(len(b.wire), 256)])}
-						if v.soft {
-							res.Drift(prop, sig+": "+what, replay)
-						} else {
-							res.Violate(prop, sig, what, replay)
-						}
+						keep(ri, v.soft, sig, what, replay)
 					}
 				}
 				// "for any byte stream ... never panics": the same stream with one bit of the first 16 bytes
@@ -838,7 +851,7 @@ func table(in json.RawMessage, res *vh.Result) error {
 							if o.panicV != nil {
 								sig = "noise:panic"
 							}
-							res.Violate(prop, sig, bad+" -- bit-flipped stream "+fmt.Sprintf("% x", b.wire[:min(len(b.wire), 64)])+" derived from "+describe(r, b, isServer, ri/4%2),
+							keep(ri, false, sig, bad+" -- bit-flipped stream "+fmt.Sprintf("% x", b.wire[:min(len(b.wire), 64)])+" derived from "+describe(r, b, isServer, ri/4%2),
 								map[string]any{"row": r, "isServer": isServer, "wire_hex": fmt.Sprintf("%x", b.wire[:min(len(b.wire), 256)])})
 						}
 					}
@@ -867,6 +880,18 @@ func table(in json.RawMessage, res *vh.Result) error {
 		}(w)
 	}
 	wg.Wait()
+	keys := make([]string, 0, len(found))
+	for k := range found {
+		keys = append(keys, k)
+	}
+	sort.Slice(keys, func(i, j int) bool { return found[keys[i]].ri < found[keys[j]].ri })
+	for _, k := range keys {
+		if f := found[k]; f.soft {
+			res.Drift(prop, f.sig+": "+f.what, f.replay)
+		} else {
+			res.Violate(prop, f.sig, f.what, f.replay)
+		}
+	}
 	for k, v := range kinds {
 		res.Count(k, v)
 	}
